@@ -4,7 +4,7 @@
    hub_agrees: a burst for a number is determined by the segment element that carries the number. *)
 From BV Require Import Base.Prelude Model.Block Model.ForkDB Model.Forkable Model.ForkableLookups Model.Burst Model.Hub
   Model.CursorResolver Model.Joining
-  Spec.Consumer Spec.Universe Check.Burst_Check Check.C07_Check Spec.C06_Spec Spec.C07_Spec Spec.C09_Spec Spec.C07_Compose_Spec
+  Spec.Consumer Spec.Universe Check.Burst_Check Check.C07_Check Spec.C06_Spec Spec.C07_Spec Spec.C09_Spec Spec.C07_Compose_Spec Spec.C07_Unfixed_Spec
   Proofs.C09_Proofs Proofs.C09_Invariant Proofs.C07_Live Proofs.C07_ComposeCheck.
 Local Open Scope N_scope.
 
@@ -101,7 +101,7 @@ Proof.
   rewrite Ec in Hfold. injection Hfold as <-. specialize (Hfin eq_refl). vm_compute in Hfin. discriminate.
 Qed.
 
-(* ------------------------------------------------------------------ files_agree is needed *)
+(* ------------------------------------------------------------------ the join by block number (before the fix) *)
 
 Definition na_b (n : N) : block := mkBlock n n (n - 1) (n - 2).
 Definition na_f14 : block := mkBlock 114 14 13 12.
@@ -112,7 +112,7 @@ Definition na_c : jcfg := mkJ 2 5 10 0 5 None 0 0 0.
 Definition na_w : world :=
   mkW (hub_run 2 5 hub_init []) ([na_b 12; na_b 13; na_f14; na_f15] ++ map na_b [14;15;16;17;18;19;20]).
 
-Lemma c07_files_agree_needed_proof : C07_files_agree_needed.
+Lemma c07_join_by_number_refuted_proof : C07_join_by_number_refuted.
 Proof.
   exists na_U, na_c, na_w, [(10, 4)], 16, na_canon, [].
   split; [vm_compute; reflexivity|]. split; [vm_compute; reflexivity|].
@@ -133,5 +133,6 @@ Proof.
     assert (H : forallb (fun b => bnum b <? file_bound) (filter (fun b => bnum b <? 16) na_canon) = true) by (vm_compute; reflexivity).
     rewrite forallb_forall in H. apply N.ltb_lt. apply H. exact Hb. }
   split; [exists (na_b 5); split; [vm_compute; tauto | vm_compute; reflexivity]|].
-  vm_compute. reflexivity.
+  split; [vm_compute; reflexivity|].
+  intros E. apply (f_equal (fun x => length (fst x))) in E. vm_compute in E. discriminate.
 Qed.
